@@ -106,8 +106,12 @@ type regSpec struct {
 }
 
 func runC15(w *World, r *Report) {
+	r.Rule("stateless", "lookups depend on no package-level state that a call can change and race on none", 8)
+	importStateless(w, r, "stateless")
 	r.Rule("registry", "each registry entry equals its specification row (class, field number, width)", 120)
 	r.Rule("helper", "newMatchFieldHeader builds {Class, Field, Length} from its arguments with HasMask false", 1)
+	r.Rule("names", "every name the module hands to the registry lookup is a registered constant, a parameter passed through, or a registered prefix with a decimal index", 10)
+	lookupNamesRule(w, r)
 	r.Rule("lookup", "case folding, width doubling and mask flag of the lookup", 5)
 	r.Rule("fresh", "the lookup returns a fresh allocation that copies no pointer from the table", 1)
 	runC15Lanes(w, r)
@@ -442,4 +446,133 @@ func (w *World) lookupRule(r *Report, fi *FuncInfo, maxW int64) {
 	} else {
 		r.Fail(VViolation, "lookup", fi.Key, "notfound", pos, "no (nil, error) return under the not-found condition")
 	}
+}
+
+// lookupNamesRule: every name the module hands to the registry lookup is a registered constant, the
+// caller's own parameter passed through, or a constant prefix followed by the decimal form of an index
+// (fmt.Sprintf("PREFIX%d", i), "PREFIX"+strconv.Itoa(i)) such that PREFIX0 is registered. A name put
+// together in another way (a single rune appended for the index) names the right entry only for some
+// indices, and the lookup's error is discarded by these helpers.
+func lookupNamesRule(w *World, r *Report) {
+	entries, why := w.registryEntries()
+	if len(entries) == 0 {
+		r.Fail(VUndecided, "names", "openflow13.oxxFieldHeaderMap", "", "-", why)
+		return
+	}
+	reg := map[string]bool{}
+	for _, e := range entries {
+		reg[e.Name] = true
+	}
+	n := 0
+	for _, key := range w.sortedFuncKeys() {
+		fi := w.Funcs[key]
+		if fi.Decl.Body == nil {
+			continue
+		}
+		info := fi.Pkg.TypesInfo
+		params := map[types.Object]bool{}
+		for _, p := range paramObjs(fi) {
+			if p != nil {
+				params[p] = true
+			}
+		}
+		site := 0
+		ast.Inspect(fi.Decl.Body, func(nd ast.Node) bool {
+			c, ok := nd.(*ast.CallExpr)
+			if !ok || len(c.Args) < 1 {
+				return true
+			}
+			fn := w.calleeOf(info, c)
+			if fn == nil || fn.Name() != "FindFieldHeaderByName" {
+				return true
+			}
+			site++
+			n++
+			inst := fmt.Sprintf("site#%d", site)
+			pos := w.Pos(c.Pos())
+			arg := unparen(c.Args[0])
+			if tv, ok := info.Types[arg]; ok && tv.Value != nil && tv.Value.Kind() == constant.String {
+				name := strings.ToUpper(constant.StringVal(tv.Value))
+				if reg[name] {
+					r.OK("names", fi.Key, inst, pos, "constant registered name "+name, true)
+				} else {
+					r.Fail(VViolation, "names", fi.Key, inst, pos, "the constant name "+name+" is not in the registry: the lookup fails, and the constructors discard its error")
+				}
+				return true
+			}
+			id, isId := arg.(*ast.Ident)
+			if isId && params[info.Uses[id]] && countAssignsTo(info, fi.Decl.Body, info.Uses[id]) == 0 {
+				r.OK("names", fi.Key, inst, pos, "the caller's name passed through", false)
+				return true
+			}
+			// a local built once from a constant prefix and a decimal index
+			var build ast.Expr = arg
+			if isId {
+				nAssign := 0
+				ast.Inspect(fi.Decl.Body, func(m ast.Node) bool {
+					if as, ok := m.(*ast.AssignStmt); ok {
+						for i, l := range as.Lhs {
+							if identObj(info, l) == info.Uses[id] && i < len(as.Rhs) {
+								nAssign++
+								build = unparen(as.Rhs[i])
+							}
+						}
+					}
+					return true
+				})
+				if nAssign != 1 {
+					build = nil
+				}
+			}
+			prefix := ""
+			switch b := build.(type) {
+			case *ast.CallExpr:
+				// fmt.Sprintf("PREFIX%d", i)
+				if f := w.calleeOf(info, b); f != nil && f.Pkg() != nil && f.Pkg().Path() == "fmt" && f.Name() == "Sprintf" && len(b.Args) == 2 {
+					if tv, ok := info.Types[b.Args[0]]; ok && tv.Value != nil && tv.Value.Kind() == constant.String {
+						f := constant.StringVal(tv.Value)
+						if strings.HasSuffix(f, "%d") && strings.Count(f, "%") == 1 && isIntType(info.TypeOf(b.Args[1])) {
+							prefix = strings.TrimSuffix(f, "%d")
+						}
+					}
+				}
+			case *ast.BinaryExpr:
+				// "PREFIX" + strconv.Itoa(i)
+				if b.Op == token.ADD {
+					if tv, ok := info.Types[b.X]; ok && tv.Value != nil && tv.Value.Kind() == constant.String {
+						if c2, ok := unparen(b.Y).(*ast.CallExpr); ok {
+							if f := w.calleeOf(info, c2); f != nil && f.Pkg() != nil && f.Pkg().Path() == "strconv" && f.Name() == "Itoa" {
+								prefix = constant.StringVal(tv.Value)
+							}
+						}
+					}
+				}
+			}
+			switch {
+			case prefix == "":
+				r.Fail(VViolation, "names", fi.Key, inst, pos, "the name handed to the lookup is neither a registered constant, a parameter passed through, nor a constant prefix with the decimal form of an index ("+types.ExprString(arg)+"): it need not name a registered field for every index, and the lookup's error is not looked at")
+			case !reg[strings.ToUpper(prefix)+"0"]:
+				r.Fail(VViolation, "names", fi.Key, inst, pos, "no field "+prefix+"0 is registered: the indexed names built here are not those of the registry")
+			default:
+				r.OK("names", fi.Key, inst, pos, "indexed name "+prefix+"<decimal index>; "+prefix+"0 is registered", true)
+			}
+			return true
+		})
+	}
+	r.Stats["lookup_call_sites"] = n
+}
+
+func countAssignsTo(info *types.Info, body ast.Node, o types.Object) int {
+	n := 0
+	ast.Inspect(body, func(m ast.Node) bool {
+		if as, ok := m.(*ast.AssignStmt); ok {
+			for _, l := range as.Lhs {
+				if identObj(info, l) == o {
+					n++
+				}
+			}
+		}
+		return true
+	})
+	return n
 }
